@@ -607,7 +607,8 @@ def analyse(e, sc, vc):
         if any(s[0] == 'u' and s[1].startswith('pow:') and abs(int(s[1][4:])) > 2 for s in subterms(sub)):
             return True
         return any(s[0] == 'u' and s[1] in FNS for s in subterms(sub)) or \
-            any(not is_dyadic(r) or abs(r) > 2 ** 40 for s in subterms(sub) for r in vals.get(id(s), []))
+            any(not is_dyadic(r) or abs(r) > 2 ** 40 or r.numerator.bit_length() > 53
+                for s in subterms(sub) for r in vals.get(id(s), []))
     fragile = False
     for sub, r in trace:
         if sub[0] == 'u' and sub[1] in ('floor', 'ceil') and inexact_sub(sub[2]):
